@@ -1193,3 +1193,92 @@ fire("fingerprint-prefix-test", ["C01", "C03"], "R-KB", T,
 fire("evaluatable-dict-deepcopies", ["C18", "C05"], "R-ON", COL,
      "    pairs = (Iter[Union[K, V]](Value(key), val) for key, val in contents.items())",
      "    import copy\n    contents = copy.deepcopy(contents)\n    pairs = (Iter[Union[K, V]](Value(key), val) for key, val in contents.items())")
+
+# ------------------------------------------------------------------ round 6: R-KU, R-CF, R-JS, R-TV and the obligations added to R-RE / R-SO / R-MX / R-ID / R-KN / R-RG / R-OA
+fire("pipeline-explain-symmetric-difference", ["C11", "C16"], "R-KU", PL,
+     "        return self.tail.explain(options) | (\n            self.rest.explain(options) if self.rest else set()\n        )",
+     "        return self.tail.explain(options) ^ (\n            self.rest.explain(options) if self.rest else set()\n        )")
+fire("partial-keys-intersection", ["C01", "C03"], "R-KU", AP,
+     "    def keys(self, options: Options) -> Set[str]:\n        return self.func.keys(options) | self.arguments.keys(options)\n\n    def explain(self, options: Optional[Options] = None) -> Set[str]:\n        return self.func.explain(options) | self.arguments.explain(options)\n\n    def __repr__(self) -> str:\n        return self._repr\n\n    @overload\n    @classmethod\n    def lift(\n        cls,\n        __func: Callable[P, A],\n        /,\n    ) -> \"PartialApplication[P, A]\": ...",
+     "    def keys(self, options: Options) -> Set[str]:\n        return self.func.keys(options) & self.arguments.keys(options)\n\n    def explain(self, options: Optional[Options] = None) -> Set[str]:\n        return self.func.explain(options) | self.arguments.explain(options)\n\n    def __repr__(self) -> str:\n        return self._repr\n\n    @overload\n    @classmethod\n    def lift(\n        cls,\n        __func: Callable[P, A],\n        /,\n    ) -> \"PartialApplication[P, A]\": ...")
+fire("arguments-explain-or", ["C11"], "R-KU", AR,
+     "        return self.args.explain(options) | self.kwargs.explain(options)",
+     "        return self.args.explain(options) or self.kwargs.explain(options)")
+fire("apply-explain-difference", ["C01", "C11"], "R-KU", T,
+     "        return self.evaluatable.explain(options) | self.func.explain(options)",
+     "        return self.evaluatable.explain(options) - self.func.explain(options)")
+silent("arguments-keys-augmented-union", ["C01", "C03", "C16"], AR,
+       "        return self.args.keys(options).union(self.kwargs.keys(options))",
+       "        found = set(self.args.keys(options))\n        found |= self.kwargs.keys(options)\n        return found")
+silent("pipeline-keys-set-union-call", ["C01", "C03", "C16", "C13"], PL,
+       "        return self.tail.keys(options) | (\n            self.rest.keys(options) if self.rest else set()\n        )",
+       "        earlier = self.rest.keys(options) if self.rest else set()\n        return set().union(earlier, self.tail.keys(options))",
+       note="set union is commutative; the order in which the two key sets are computed is not observable (keys() has no side effects on options)")
+fire("logrequest-options-holds-message", ["C18"], "R-CF", LG,
+     "        self.options = options\n        self.level = level",
+     "        self.options = msg\n        self.level = level")
+fire("switcherror-joins-sorted-hashables", ["C12"], "R-JS", CO,
+     "            f\"but must be one of {', '.join(map(str, lookup.keys()))}.\",",
+     "            f\"but must be one of {', '.join(sorted(lookup))}.\",")
+silent("switcherror-joins-str-genexp", ["C12"], CO,
+       "            f\"but must be one of {', '.join(map(str, lookup.keys()))}.\",",
+       "            f\"but must be one of {', '.join(str(key) for key in lookup.keys())}.\",")
+fire("types-typevar-misnamed", ["C20"], "R-TV", T,
+     "B = TypeVar(\"B\", covariant=True)",
+     "B = TypeVar(\"A\", covariant=True)")
+fire("runtime-exit-pops-front", ["C14", "C13", "C02"], "R-RE", RT,
+     "            previous = stack.pop()",
+     "            previous = stack.pop(0)")
+fire("runtime-enter-inserts-front", ["C14"], "R-RE", RT,
+     "            self._previous.setdefault(thread, []).append(_RUNTIMES.get(thread))",
+     "            self._previous.setdefault(thread, []).insert(0, _RUNTIMES.get(thread))")
+fire("runtime-enter-saves-fresh-runtime", ["C14"], "R-RE", RT,
+     "            self._previous.setdefault(thread, []).append(_RUNTIMES.get(thread))",
+     "            self._previous.setdefault(thread, []).append(_RUNTIMES.get(thread, Runtime()))")
+silent("runtime-stack-is-a-deque", ["C14", "C15"], RT,
+       "            self._previous.setdefault(thread, []).append(_RUNTIMES.get(thread))",
+       "            self._previous.setdefault(thread, []).insert(0, _RUNTIMES.get(thread))",
+       also=[("            previous = stack.pop()", "            previous = stack.pop(0)")],
+       note="filled and emptied at the same (front) end: still last-in first-out")
+fire("casewhen-when-concatenates-in-front", ["C05"], "R-SO", CO,
+     "            [*self.cases, (Evaluatable.ensure(condition), Evaluatable.ensure(result))],",
+     "            [(Evaluatable.ensure(condition), Evaluatable.ensure(result))] + [*self.cases],")
+silent("casewhen-when-concatenates-behind", ["C05", "C06"], CO,
+       "            [*self.cases, (Evaluatable.ensure(condition), Evaluatable.ensure(result))],",
+       "            [*self.cases] + [(Evaluatable.ensure(condition), Evaluatable.ensure(result))],")
+fire("factory-update-keeps-old-default-options", ["C08"], "R-MX", D,
+     "            default_options=default_options or self.default_options,",
+     "            default_options=self.default_options or default_options,")
+fire("factory-update-old-defaults-win", ["C08"], "R-MX", D,
+     "            defaults={**self.defaults, **(defaults or {})},",
+     "            defaults={**(defaults or {}), **self.defaults},")
+silent("factory-update-conditional-expression", ["C08", "C19"], D,
+       "            options=options or self.options,",
+       "            options=options if options else self.options,")
+fire("interface-abstract-over-valued-annotation", ["C07", "C09"], "R-ID", IF,
+     "            if name.startswith(\"_\") or name in dct:\n                continue",
+     "            if name.startswith(\"_\"):\n                continue")
+silent("interface-annotation-guard-demorgan", ["C07", "C09"], IF,
+       "            if name.startswith(\"_\") or name in dct:\n                continue\n\n            def _abstractdataset():\n                pass  # pragma: no cover\n\n            _abstractdataset.__qualname__ = f\"{cls.__name__}.{name}\"\n            _abstractdataset.__name__ = name\n            setattr(cls, name, abstractdataset(_abstractdataset, dispatch=dispatch))",
+       "            if not (name in dct or name.startswith(\"_\")):\n\n                def _abstractdataset():\n                    pass  # pragma: no cover\n\n                _abstractdataset.__qualname__ = f\"{cls.__name__}.{name}\"\n                _abstractdataset.__name__ = name\n                setattr(cls, name, abstractdataset(_abstractdataset, dispatch=dispatch))")
+fire("option-keynotfound-picks-second-element", ["C12", "C04"], "R-KN", O,
+     "                raise KeyNotFoundError((*e.args, self.key)[0], self) from e",
+     "                raise KeyNotFoundError((*e.args, self.key)[1], self) from e")
+silent("template-keynotfound-unpacks-first", ["C12", "C04"], TP,
+       "            raise KeyNotFoundError((*e.args, \"UNKNOWN\")[0], self) from e",
+       "            missing, *_ = (*e.args, \"UNKNOWN\")\n            raise KeyNotFoundError(missing, self) from e")
+fire("implements-aliases-generator", ["C07", "C19"], "R-RG", IF,
+     "    aliases = tuple(alias) if isinstance(alias, list) else (alias,)",
+     "    aliases = (a for a in alias) if isinstance(alias, list) else (alias,)")
+silent("implements-aliases-list", ["C07", "C19"], IF,
+       "    aliases = tuple(alias) if isinstance(alias, list) else (alias,)",
+       "    aliases = list(alias) if isinstance(alias, list) else [alias]")
+fire("apply-explain-without-options", ["C13", "C11"], "R-OA", T,
+     "        return self.evaluatable.explain(options) | self.func.explain(options)",
+     "        return self.evaluatable.explain() | self.func.explain(options)")
+silent("pipeline-explain-keyword-options", ["C13", "C11"], PL,
+       "        return self.tail.explain(options) | (\n            self.rest.explain(options) if self.rest else set()\n        )",
+       "        return self.tail.explain(options=options) | (\n            self.rest.explain(options=options) if self.rest else set()\n        )")
+silent("runtime-exit-reads-then-deletes-last", ["C14", "C15", "C13"], RT,
+       "            previous = stack.pop()",
+       "            previous = stack[-1]\n            del stack[-1]")
